@@ -112,7 +112,11 @@ def main():
         ],
         'checks': checks,
         'not_applicable': na,
-        'notes': 'exit 2 = inconclusive (anchor lost, unsupported construct, resource limit): never an alarm. See DESIGN.md.',
+        'notes': 'exit 0 = held on everything explored (lines KNOWN-FINDING / PROOF-LOST / BOUNDED-STANDIN are informational: a listed '
+                 'finding of known_findings.json, a proof that no longer goes through although no obligation stating the property failed and '
+                 'its bounded check passed, a function left outside the verifier with the bounded check standing in); exit 1 = VIOLATION line; '
+                 'exit 2 = inconclusive (anchor lost, unsupported construct with nothing to fall back on, resource limit, checker error): never '
+                 'an alarm. Known findings: known_findings.json. See DESIGN.md.',
     }
     with open(os.path.join(ROOT, 'MANIFEST.json'), 'w') as f:
         json.dump(man, f, indent=1)
